@@ -108,7 +108,7 @@ def evaluate(scn: dict[str, Any], tag: str) -> dict[str, Any]:
             files, mt = h.world.snapshot_files()
             if not new:
                 continue
-            style = st.get("request") or "auto"
+            style = st.get("request") or scn.get("req_style") or "auto"
             if new != cur or style == "check":
                 req = {"cmd": "check", "files": new}
             elif mode != "normal" and style == "lists":
@@ -207,12 +207,21 @@ def fg_cases() -> list[dict[str, Any]]:
 TRANSFORMS = corpus.TRANSFORMS + ["from_cache"]
 
 
+STYLES = ["check", "recheck"]
+
+
+def family_size() -> int:
+    return len(fg_cases()) * len(TRANSFORMS) * len(STYLES)
+
+
 def gen_corpus(k: int, tier: str) -> dict[str, Any] | None:
     """Corpus case x history transform -> raw-file scenario."""
     cases = fg_cases()
-    rng = kit.rng_for(PROP, "corpus", k)
-    c = cases[k % len(cases)] if tier == "thorough" else rng.choice(cases)
-    tr = TRANSFORMS[(k // max(1, len(cases))) % len(TRANSFORMS)] if tier == "thorough" else rng.choice(TRANSFORMS)
+    member = k if tier == "thorough" else kit.rng_for(PROP, "corpus", k).randrange(family_size())
+    rng = kit.rng_for(PROP, "corpus-member", member)
+    c = cases[member % len(cases)]
+    tr = TRANSFORMS[(member // len(cases)) % len(TRANSFORMS)]
+    style = STYLES[(member // (len(cases) * len(TRANSFORMS))) % len(STYLES)]
     flags = corpus.step_flags(c, 0)
     files0 = dict(c["steps"][0])
     prelude_files = None
@@ -220,7 +229,7 @@ def gen_corpus(k: int, tier: str) -> dict[str, Any] | None:
         trees = corpus.trees_of(c)
         prelude_files = trees[0]
         start = trees[1]
-        steps = [{"edits": corpus.delta(trees[i], trees[i + 1]), "gap_s": 2.0, "run": True} for i in range(1, len(trees) - 1)]
+        steps = [{"edits": corpus.delta(trees[i], trees[i + 1]), "gap_s": 2.0, "run": True, "tree": i + 1} for i in range(1, len(trees) - 1)]
     else:
         start, steps = corpus.transform_history(c, tr, rng)
     argv = [a for a in corpus.step_argv(c, 0) if not a.startswith("-")]
@@ -232,7 +241,20 @@ def gen_corpus(k: int, tier: str) -> dict[str, Any] | None:
     if not c["name"].endswith("_no_empty"):
         fl.append("--allow-empty-bodies")  # what the suite sets for these cases (testfinegrained.py)
     scn = {"files": start, "argv": argv, "config": histsim.STORE_CONFIGS[0], "steps": steps, "mode": mode, "flags": fl,
-           "case": c["file"] + "::" + c["name"], "transform": tr, "dynamic_argv": not c.get("follow")}
+           "case": c["file"] + "::" + c["name"], "transform": tr, "dynamic_argv": not c.get("follow"), "req_style": style, "member": member}
+    if c.get("follow"):
+        # the case's own per-step command lines (# cmdN:), restricted to files that exist at that moment
+        cur = dict(start)
+        for st in steps:
+            for e in st["edits"]:
+                if e["e"] == "write":
+                    cur[e["path"]] = e["text"]
+                elif e["e"] == "delete":
+                    cur.pop(e["path"], None)
+            want = [a for a in corpus.step_argv(c, st.get("tree", 0)) if not a.startswith("-")]
+            st["edits"] = st["edits"] + [{"e": "argv", "argv": [a for a in want if a in cur] or ["main.py"]}]
+        first = steps[0].get("start_tree", 0) if steps else 0
+        scn["argv"] = [a for a in corpus.step_argv(c, 1 if prelude_files is not None else first) if not a.startswith("-") and a in start] or scn["argv"]
     if prelude_files is not None:
         t0 = 999_999_900.0
         pargv = [p for p in argv if p in prelude_files] or ["main.py"]
@@ -272,13 +294,21 @@ def task(item: tuple[str, int, str]) -> dict[str, Any]:
     if k < 1:
         out["sample"] = {"family": fam, "mode": scn["mode"], "case": scn.get("case"), "transform": scn.get("transform"), "steps": [[e.get("e") for e in st["edits"]] for st in scn["steps"]][:6]}
     if r["violation"] is not None:
-        out["violation"] = {"family": fam, "scenario": scn, "violation": r["violation"]}
+        v = r["violation"]
+        if fam == "corpus" and scn.get("req_style") == "recheck" and scn["mode"] == "normal" and v["kind"] in ("daemon_differs", "status_differs_only"):
+            # counterfactual replay: the same history with `check <files>` instead of `recheck`
+            cf = evaluate(dict(scn, req_style="check"), f"cf{k}")["violation"]
+            if cf is None:
+                v = dict(v, kind="recheck_follow_imports_keeps_unreferenced_modules")
+        out["violation"] = {"family": fam, "scenario": scn, "violation": v}
     return out
 
 
 def vkey(v: dict[str, Any]) -> str:
     if v["family"] == "corpus":
-        return f"corpus:{v['scenario']['case']}:{v['scenario']['transform']}:{v['violation']['kind']}"
+        if v["violation"]["kind"] == "recheck_follow_imports_keeps_unreferenced_modules":
+            return "corpus:" + v["violation"]["kind"]
+        return f"corpus:{v['scenario']['case']}:{v['scenario']['transform']}:{v['scenario'].get('req_style')}:{v['violation']['kind']}"
     return f"model:{v['violation']['kind']}"
 
 
@@ -341,7 +371,9 @@ def match_known(v: dict[str, Any], known: list[dict[str, Any]]) -> dict[str, Any
     for e in known:
         m = e.get("match", {})
         if "case" in m:
-            if v["family"] == "corpus" and v["scenario"]["case"] == m["case"] and v["scenario"]["transform"] in m.get("transforms", [v["scenario"]["transform"]]):
+            if (v["family"] == "corpus" and v["scenario"]["case"] == m["case"]
+                    and [v["scenario"]["transform"], v["scenario"].get("req_style")] in m.get("members", [])
+                    and v["violation"]["kind"] not in ("recheck_follow_imports_keeps_unreferenced_modules",)):
                 return e
         elif m.get("kind") == v["violation"]["kind"] and m.get("family", v["family"]) == v["family"]:
             return e
@@ -362,7 +394,7 @@ def run(tier: str) -> int:
     rep.stub_components = ["IPC transport (requests are method calls; the transport is C16's subject)", "typeshed (lib-stub + fixtures)", "clock (file mtimes from the SimClock)"]
     rep.assumptions = ["a content-changing edit changes (mtime, size) of the file (fswatcher hashes only then)", "edits happen between requests", "the oracle also runs in daemon mode (fine_grained_incremental), because daemon mode changes some message texts by design"]
     n_model = 110 if tier == "quick" else 3000
-    n_corpus = 150 if tier == "quick" else len(fg_cases()) * len(TRANSFORMS)
+    n_corpus = 170 if tier == "quick" else family_size()
     items = [("model", k, tier) for k in range(n_model)] + [("corpus", k, tier) for k in range(n_corpus)]
     # The generated-model family is exploration only (DESIGN 9.7): it reaches genuine fine-grained
     # defects faster than they can be listed one by one, and being infinite it cannot be swept, so the
